@@ -231,6 +231,29 @@ def _task(task):
                     check_doc(t, {**spec2, "edited_from": {"abstract_bits": spec["abstract_bits"], "crits": list(spec["crits"])}}, doc2, defn, "xml+edited")
             except BaseException as e:  # noqa: BLE001
                 t.violation({"kind": "check-aborted", "exc": type(e).__name__, "part": "edited"}, {"spec": spec2}, observed=str(e)[:300])
+        # ... and after its SET of containers is changed through the public attributes: a further child registered under the root (its object
+        # put into `containers`, its name appended to the root's inheritors), or the last child taken out again
+        if task["via"] == "xml" and spec["n"] in (2, 3) and not spec["other_names"] and spec["nest"] == 0 and "root_name" not in spec \
+                and (spec["abstract_bits"] + sum(spec["crits"])) % 7 == 0:
+            n = spec["n"]
+            grow = dict(spec, n=n + 1, parents=tuple(spec["parents"]) + (0,), crits=tuple(spec["crits"]) + ((sum(spec["crits"]) + 1) % N_CRIT,))
+            try:
+                with case_alarm(60):
+                    used = load_doc(make_doc(**spec))
+                    for pkt in packets()[:6]:
+                        parse_one(used, pkt)                      # the definition has decoded packets of every APID by now
+                    doc_g = make_doc(**grow)
+                    donor = load_doc(doc_g)
+                    new_name = f"C{n}"
+                    used.containers[new_name] = donor.containers[new_name]
+                    used.containers[doc_g.root].inheritors.append(new_name)
+                    check_doc(t, {**grow, "edited_from": {"n": n, "change": "child added"}}, doc_g, used, "xml+child-added")
+                    # and out again
+                    del used.containers[new_name]
+                    used.containers[doc_g.root].inheritors.remove(new_name)
+                    check_doc(t, {**spec, "edited_from": {"n": n + 1, "change": "child removed"}}, make_doc(**spec), used, "xml+child-removed")
+            except BaseException as e:  # noqa: BLE001
+                t.violation({"kind": "check-aborted", "exc": type(e).__name__, "part": "children-edited"}, {"spec": grow}, observed=str(e)[:300])
     if task["specs"]:
         t.sample(task["specs"][len(task["specs"]) // 2])
     return t
@@ -258,9 +281,11 @@ def all_specs(tier):
                                               "children_first": cf, "other_names": other})
     if tier == "quick":
         # the four-container shapes that put two siblings under a mid-level container (ambiguity and dead ends below a container that was itself
-        # selected by criteria): every criterion for every edge; the full four-container space is in the thorough tier
+        # selected by criteria): every criterion for every edge (every other triple); the full four-container space is in the thorough tier
         for parents in ((0, 1, 1), (0, 0, 1)):
             for crits in itertools.product(range(N_CRIT), repeat=3):
+                if (sum(crits) + crits[0]) % 2:
+                    continue   # quick tier: every other criteria triple for the four-container shapes
                 for ab in (0, 2, 3):
                     specs.append({"n": 4, "parents": parents, "crits": crits, "abstract_bits": ab, "nest": 0, "children_first": bool(sum(crits) % 2),
                                   "other_names": False})
